@@ -53,19 +53,21 @@ Definition V3 (n : nat) (a : str) (p : option ppath) : nat * str * option ppath 
 Definition case_t := (heap * list (list (str * str)) * nat * answer)%type.
 Definition Case (h : heap) (g : list (list (str * str))) (r : nat) (a : answer) : case_t := (h, g, r, a).
 
-Definition check_with (esc : str -> str)
-           (c : case_t) : bool :=
+Definition check_with (esc : str -> str) (SE : nat -> node -> list edge) (second : bool) (c : case_t) : bool :=
   let '(h, gens, root, a) := c in
-  match generated esc h gens root jd with
+  match generated esc SE h gens root jd with
   | None => false
   | Some l =>
       list_eqb Bool.eqb (map sealed h) (a_sealed a)
-      && values_agree h l (a_values a) && values_agree h l (a_values2 a)
+      && values_agree h l (a_values a) && (if second then values_agree h l (a_values2 a) else true)
       (* the hypotheses of C17_distinct_wf hold on the generated heaps *)
       && files_plainb gens && names_wfb h && task_targets_cutb h
   end.
 
-(* the model of the repaired code *)
-Definition check_case := check_with esc_fix.
-(* the literal model of the code before fixes/C17-1.diff, for diagnosis *)
-Definition check_case_prefix := check_with esc_prefix.
+(* the model of the repaired code; the second submit is a fresh copy whose dicts may have been
+   filled in the opposite order: same configuration, same model answer *)
+Definition check_case := check_with esc_fix seal_edges true.
+(* diagnosis: the code before fixes/C17-2.diff (dicts walked in insertion order), first submit only *)
+Definition check_case_insertion := check_with esc_fix seal_edges_insertion false.
+(* diagnosis: the code before fixes/C17-1.diff (keys used as they are) *)
+Definition check_case_prefix := check_with esc_prefix seal_edges_insertion false.
